@@ -50,7 +50,7 @@ def validateDenom (d : String) : R String :=
 
 /-- `validate_ibc_denom`: `ibc/` followed by 64 bytes -/
 def validateIbcDenom (d : String) : R String :=
-  if d.startsWith "ibc/" && (d.utf8ByteSize - 4 == 64) then .ok d
+  if d.toList.take 4 = "ibc/".toList ∧ d.utf8ByteSize = 68 then .ok d
   else .error (genericErr "ibc denom is invalid")
 
 /-- `str::parse::<u64>`: optional leading `+`, then one or more ASCII digits, value ≤ 2^64-1 -/
@@ -67,7 +67,7 @@ def parseU64 (s : String) : Option Nat :=
 
 /-- the channel test of `UnsafeProtocolChainConfig::validate` -/
 def channelOk (ch : String) : Bool :=
-  ch.startsWith "channel-" && (ch.toList.drop 8).all Char.isDigit
+  ch.toList.take 8 = "channel-".toList && (ch.toList.drop 8).all Char.isDigit
     && (parseU64 (String.ofList (ch.toList.drop 8))).isSome
 
 def MAX_PERIOD_SECONDS : Nat := 10000000000
